@@ -38,7 +38,7 @@ CHECKS = {
  "C05": ("exploration", "vcheck",
    "exhaustive enumeration of call objects (10 method templates x 8 flag sets x explicit false x 0..2 unknown members x every member permutation) + proptest lanes for re-spelled texts (escapes in member names / values, white space), encodings through serde_json and through zlink's own serializer, derived error enums x member orders x {absent, null, {}}, Reply<T>, unit-output proxy methods; oracles: reference decode of the method type alone (differential), hand-written expected encodings, round trip, permutation invariance",
    "Every permutation of every envelope in the grammar is decoded as Call<M> and compared with the decode of M from the same object without the flags (flags as written, hidden from M, other members passed through); encodings are compared with hand-written expectations via serde_json and via the send path; unknown members also get generated names (1..60 bytes of ASCII and 2-4-byte characters, raw or \\u-escaped); every value of 4 derived error enums and the standard service errors round-trips from every member order and, when field-less, from absent / null / {} parameters (also through receive_reply); every variant of every enum of a generated corpus (unit / struct variants, renamed and raw-identifier fields, options, borrowed fields, lists, maps, nested structs, interface names with dashes and digits) encodes - through serde_json and through send_error - to the document its declaration denotes and decodes from 4..8 spellings to the value it was written from, also through receive_reply; unit-output proxy methods accept all three spellings.",
-   "Trusted: serde's derive for user-defined method types as the reference for what the method type accepts; hand-written expected encodings next to each generated value. Error-enum shapes: 4 compiled-in enums plus a generated corpus (40 enums quick, 400 thorough) compiled with the ReplyError derive, whose expected wire names / parameter names / values come from the generator's own table.",
+   "Trusted: serde's derive for user-defined method types as the reference for what the method type accepts; hand-written expected encodings next to each generated value. Error-enum shapes: 4 compiled-in enums plus a generated corpus (100 enums quick, 400 thorough) compiled with the ReplyError derive, whose expected wire names / parameter names / values come from the generator's own table.",
    "§3 C05"),
  "C08": ("exploration", "vcheck",
    "model-based property testing of server schedules (proptest, shrinking; thorough: libFuzzer target srv_sim decoding the same raw scenario values): deterministic simulation of Server::run (scripted listener / sockets / service, hand-rolled executor, one Poll = run to quiescence) with generated connection scripts and global event orders; exhaustive enumeration of all interleavings of chunk deliveries for 2 connections x 4 chunks and 3 connections x 2 chunks; oracle = per-connection sequential reference model + service-log monitor",
@@ -47,7 +47,7 @@ CHECKS = {
    "§3 C08"),
  "C09": ("fault_enumeration", "vcheck",
    "fault injection into the deterministic server simulation: property-based generation of scenarios with faulty connections + exhaustive placement of every fault kind at every script position / every k for EOF, read error and write failure; relational oracle (same scenario re-run with the faulty connections absent, healthy outputs byte-identical at every observation) + reference model + liveness probe connection",
-   "Faults (8 fixed kinds of bad frame - garbage, invalid UTF-8, wrong shape, unknown method, wrong types, missing parameter, ill-typed flag, a valid call followed by more bytes in the same frame - and generated undecodable frames of 0..900 bytes with multi-byte characters at every offset, at any position, truncated frame then EOF, EOF / transport read error anywhere, write failure from the k-th write) are placed in one or two of 1..4 connections under generated global event orders; every healthy connection must receive byte-identical frames at every quiescent point compared with a second run in which the faulty connections do not exist, must equal the sequential model, and a connection that arrives after all faults must be served; Server::run() must stay pending.",
+   "Faults (oversized messages - a well-formed call 0..2000 bytes beyond the receive limit, injected in a second build whose limit the cfg(zlink_verif_small_buf) hook lowers to 83*256 bytes - and 8 fixed kinds of bad frame - garbage, invalid UTF-8, wrong shape, unknown method, wrong types, missing parameter, ill-typed flag, a valid call followed by more bytes in the same frame - and generated undecodable frames of 0..900 bytes with multi-byte characters at every offset, at any position, truncated frame then EOF, EOF / transport read error anywhere, write failure from the k-th write) are placed in one or two of 1..4 connections under generated global event orders; every healthy connection must receive byte-identical frames at every quiescent point compared with a second run in which the faulty connections do not exist, must equal the sequential model, and a connection that arrives after all faults must be served; Server::run() must stay pending.",
    "Trusted: as C08. A peer that closes in the middle of a frame makes zlink drop the complete frames read together with the partial one; no listed property demands those replies, so a faulty connection is only checked for consistency (a prefix relation with its model, nothing foreign). The oversized-message fault is covered by C17, not here.",
    "§3 C09"),
  "C10": ("exploration", "vcheck",
